@@ -87,8 +87,10 @@ Section Run.
           end
         else Ok (b_srcs st) in
       let alive := flat_map subnodes (filter (fun n => existsb (Nat.eqb (addr n)) retained) (subnodes tree)) in
+      (* address 999 in the retained list = the twin copies are dropped before reading back *)
+      let twins := if existsb (Nat.eqb 999) retained then [] else twins in
       let nreg := twins ++ flat_map (fun n => match assoc_nat (addr n) (b_ids st) with Some i => [(i, n)] | None => [] end) alive in
-      tcon "RT" [tsval v;
+      tcon "RT" [tdig H v;
         match srcs with
         | Exc => tcon "Exc" []
         | Ok srcs' =>
